@@ -259,7 +259,44 @@ class Session:
         self.alive = False
 
 
-DRIVERS = {'pipe': drv_pipe}
+def drv_race(tier, seed, ctx):
+    """The concurrent matcher/loader cases of the harness, in a harness built with Go's race
+    detector. Every reported race becomes a failing case `matcher race ... => <n>`."""
+    from vcheck import evaluate, VERIF, GOENV
+    hr = os.path.join(ctx['tmp'], 'harness-race')
+    b = subprocess.run(['go', 'build', '-race', '-tags', 'verif', '-o', hr, '.'], cwd=os.path.join(VERIF, 'harness'),
+                       env=GOENV, capture_output=True, text=True)
+    if b.returncode != 0:
+        return [], ['race build failed (no verdict from the race detector): ' + b.stderr[-300:]]
+    n = 60 if tier == 'quick' else 1500
+    g = subprocess.run([ctx['harness'], 'gen', 'matcher', str(seed * 31 + 5), str(n)], capture_output=True, text=True, env=GOENV)
+    cases = [l.split(' => ')[0] for l in g.stdout.splitlines() if l.startswith('matcher conc') or l.startswith('matcher scan')]
+    g = subprocess.run([ctx['harness'], 'gen', 'rank', str(seed * 31 + 6), str(n)], capture_output=True, text=True, env=GOENV)
+    cases += [l.split(' => ')[0] for l in g.stdout.splitlines() if l.startswith('rank frozen')]
+    shards = [cases[i::8] for i in range(8)]
+
+    def work(sh):
+        if not sh:
+            return [], ''
+        env = dict(GOENV, GORACE='halt_on_error=0')
+        p = subprocess.run([hr, 'eval'], input='\n'.join(sh) + '\n', capture_output=True, text=True, env=env)
+        return p.stdout.splitlines(), p.stderr
+    lines, races, first = [], 0, ''
+    with ThreadPoolExecutor(max_workers=8) as ex:
+        for out, err in ex.map(work, shards):
+            lines += out
+            k = err.count('WARNING: DATA RACE')
+            races += k
+            if k and not first:
+                first = err[err.index('WARNING: DATA RACE'):][:1500]
+    lines.append('matcher race %d => %d' % (len(cases), races))
+    rs = evaluate(ctx['driver'], lines)
+    for res in rs:
+        res['proc'] = dict(kind='race-detector', report=first) if res['case'].startswith('matcher race') else dict(kind='race-build')
+    return rs, []
+
+
+DRIVERS = {'pipe': drv_pipe, 'race': drv_race}
 
 
 def run(name, tier, seed, ctx):
